@@ -23,6 +23,83 @@ PROPS = {
     },
 }
 
+VERUS_NOTE = ("Trusted: Verus 0.2026.09.13 + Z3; vstd's specifications of Vec/VecDeque/Option/HashMap/iterators; the assumed std contracts and "
+              "external_body stubs listed under trusted_base in the evidence (their `requires` are obligations on verified callers, their `ensures` "
+              "are assumptions about unverified code); extraction rules R1-R9 of DESIGN.md 3.2 as counted under rewrites_applied. ")
+
+PROPS.update({
+    "C04": {
+        "title": "A completed delivery is final",
+        "verus": [("recv", ["O-C04-"])],
+        "level": "proof",
+        "technique": "deductive verification (Verus/Z3) of contracts on the extracted receiver functions; finalisation modelled by the precondition of its stub",
+        "design_ref": "DESIGN.md 4/C04",
+        "level_text": "Partial, proof of function contracts: the completion check (called on every file-data, EOF and metadata PDU) enters finalisation "
+                      "(checksum, copy to the destination name, filestore requests) only from the data-reception state with metadata and EOF in hand and "
+                      "every byte of [0,size) held, leaves that state when it does, and is a no-op in every later state; no verified function returns to "
+                      "the data-reception state. NOT decided: the unacknowledged-mode EOF branch of process_pdu, the daemon's re-spawn of an ended "
+                      "transaction, and the two-party sentence (sender reports success only if its receiver did).",
+        "level_note": VERUS_NOTE + "finalize_receive, is_file_transfer, send_indication are stubs (bodies not verified).",
+    },
+    "C08": {
+        "title": "Receiver NAKs are well-formed and ask for exactly what is missing",
+        "verus": [("segments", ["O-C08-"]), ("recv", ["O-C08-"])],
+        "search": ["segments"],
+        "level": "proof",
+        "technique": "deductive verification (Verus/Z3) of contracts on Segments::gaps/is_complete and the receiver's has_naks/get_all_naks",
+        "design_ref": "DESIGN.md 4/C08",
+        "level_text": "Partial, proof of the NAK *content*: has_naks() <=> metadata missing or some byte of [0,EOF size) not held (a missing first segment "
+                      "included) or, before EOF, a hole between runs; get_all_naks() = the (0,0) marker exactly when metadata is missing followed by exactly "
+                      "the maximal uncovered sub-ranges of [0,n): every request non-empty, inside the file, sorted, disjoint, their union = the missing bytes. "
+                      "NOT decided: PDU assembly in send_naks (scope, split by capacity, size limit), the delayed-NAK queueing in handle_timeout and the "
+                      "deferred/immediate timing rules in process_pdu (iterator chains / Permit plumbing outside Verus' subset).",
+        "level_note": VERUS_NOTE,
+    },
+    "C17": {
+        "title": "Limit faults fire after exactly the configured expirations; set handler runs",
+        "verus": [("timer", ["O-C17-"]), ("send", ["O-C17-"]), ("recv", ["O-C17-"])],
+        "level": "proof",
+        "technique": "deductive verification (Verus/Z3): Counter/Timer against an integer-nanosecond model, history theorem over abstract transitions, handler and timeout contracts",
+        "design_ref": "DESIGN.md 4/C17",
+        "level_text": "Partial, proof: every Counter/Timer method implements an abstract transition over integer nanoseconds (update counts exactly "
+                      "floor(elapsed/timeout) expirations, saturating, carrying the remainder; restart keeps the count, reset clears it; paused counters do "
+                      "not move; the update loop terminates); theorem over any history of such transitions under a monotone clock: the count reaches the "
+                      "limit no earlier than limit x timeout after the last reset. handle_fault of both transactions takes exactly the configured action "
+                      "(Cancel by default; Ignore continues untouched; Suspend freezes; Abandon terminates with nothing queued). Sender handle_timeout "
+                      "declares a limit fault only with the count at its limit and arms an EOF retransmission only on an expired ACK timer. "
+                      "NOT decided: receiver handle_timeout and the places where progress resets the count (process_pdu, send_naks), real time between calls.",
+        "level_note": VERUS_NOTE + "Time model assumed: Instant/Duration as integer nanoseconds, Instant + Duration mathematical (std panics only after ~584 years), "
+                      "duration_since saturating, Instant::now() arbitrary. Configuration assumptions never checked by the code: timeout > 0 (else update loops forever), "
+                      "limit < u32::MAX.",
+    },
+    "C19": {
+        "title": "Suspend really suspends",
+        "verus": [("timer", ["O-C19-"]), ("send", ["O-C19-"]), ("recv", ["O-C19-"])],
+        "level": "proof",
+        "technique": "deductive verification (Verus/Z3) of the send gates, suspend/resume and timeout contracts of both transactions",
+        "design_ref": "DESIGN.md 4/C19",
+        "level_text": "Partial, proof: while state = Suspended has_pdu_to_send() never offers a PDU that send_pdu's dispatch would emit as metadata, file "
+                      "data, EOF (sender) or NAK, Finished (receiver); suspend() freezes every counter the transaction uses and a paused counter never "
+                      "counts an expiration however long it stays paused, so sender handle_timeout changes nothing and until_timeout() is maximal; "
+                      "resume() restarts the periods from the clock (paused time is not counted). NOT decided: that the transfer then completes as an "
+                      "unsuspended one (= C02, liveness), the dispatch inside send_pdu itself (Permit plumbing), receiver handle_timeout.",
+        "level_note": VERUS_NOTE + "The daemon loop calls send_pdu only under has_pdu_to_send() (lib.rs select! guard, async, not verified).",
+    },
+    "C20": {
+        "title": "Progress figures reported to users and peers are truthful",
+        "verus": [("segments", ["O-C20-"]), ("recv", ["O-C20-"]), ("send", ["O-C20-"])],
+        "search": ["segments"],
+        "level": "proof",
+        "technique": "deductive verification (Verus/Z3): merge returns the growth of the held byte set; every indication carrying progress is checked at its call site",
+        "design_ref": "DESIGN.md 4/C20",
+        "level_text": "Partial, proof: Segments::merge returns exactly the number of newly held distinct bytes (cardinality lemma), get_progress() of both "
+                      "transactions returns the stored figure, and every Fault/Abandon/Resumed indication built in the verified functions carries that "
+                      "figure (obligation on each send_indication call site). NOT decided here: keep-alive PDUs (answer_prompt), the accumulation in "
+                      "store_file_data and get_file_segment (see the evidence for whether those units are included in this run).",
+        "level_note": VERUS_NOTE,
+    },
+})
+
 NOT_APPLICABLE = {
     "C01": "end-to-end equality of delivered and source file composes two entities, the link and two filesystems over a whole history; per-function contracts give only its lemmas (proved under C09, C14, C07); no contract within reach of Verus/Kani expresses the composition",
     "C02": "liveness of a two-party protocol under fault schedules; Verus and Kani prove safety of one call, not eventual completion",
